@@ -47,10 +47,26 @@ NEAR = {
 PLAIN = ["1", "2.5", "-3.75", "100", "0.125", "45.5", "1.5E2", "-7"]
 TEXTS = ["abc", "LIME", "x-1", "n/a", "SAND"]
 NANLIT = ["NaN", "nan", "NAN"]
+NUMLIKE = ["-999.2500", "1E3", "007", "5.0", "-9.9925E2"]
+
+
+def _numlike_text(sc, v, params):
+    """known finding: number-like tokens in a text column are re-spelled (every token goes through float() first)"""
+    tc = sc.get("textcol")
+    if tc is None:
+        return False
+    for r in sc["rows"]:
+        try:
+            float(r[tc])
+            return True
+        except ValueError:
+            pass
+    return False
 
 
 class C06(Prop):
     id = "C06"
+    predicates = {"number_like_token_in_text_column": _numlike_text}
     level = "exploration"
     rule = ("scenario = NULL value (negative, positive, integer, zero, large, > 6 significant digits) x spelling of the ~Well "
             "NULL item x cells drawn from {NULL spellings, near-NULL values, plain numbers} at any site incl. the index "
@@ -73,12 +89,13 @@ class C06(Prop):
         textcol = g.randint(1, nc - 1) if g.random() < 0.2 else None
         rows = []
         nanlit = g.random() < 0.25
+        numlike = g.random() < 0.08          # a text column (text in its first row) with number-like tokens further down
         for i in range(nr):
             row = []
             for j in range(nc):
                 q = g.random()
                 if j == textcol:
-                    row.append(g.choice(TEXTS))
+                    row.append(g.choice(TEXTS) if i == 0 or not numlike else g.choice(TEXTS + NUMLIKE))
                 elif j == 0:
                     row.append(g.choice(NULLS[nk]) if q < 0.12 else "%.2f" % (100 + i * 0.5))
                 elif q < 0.3:
